@@ -258,9 +258,12 @@ class LambdaOp(Op):
         super().eval(state)
 
         def f(*args):
-            with state.names.make_scope({
+            # a lambda kept in the host's names and called by a later eval() belongs to that eval:
+            # its ops are charged there and its free names are looked up there
+            current = VMState.current(default=state)
+            with current.names.make_scope({
                 k.name: v for k, v in zip(self.args, args)
             }):
-                return self.expr.eval(state)
+                return self.expr.eval(current)
 
         return f
